@@ -161,6 +161,10 @@ func checkC13(c *Check) {
 				for _, v := range constMap(pk, init) {
 					consumed[`"`+v+`"`] = true
 				}
+			} else if rows := pureTables[t.labelMap]; rows != nil {
+				for _, r := range rows {
+					consumed[r.val.Key()] = true
+				}
 			}
 			var cl []string
 			for k := range consumed {
